@@ -232,21 +232,12 @@ def k_tcrdist(ctx, rows, chain, max_edits, edit_on_trimmed, max_tcrdist, tcrdist
         ctx.violation(f"nearest_neighbor_tcrdist:{cls}:{chain}:{d[0]}", f"TCRdist neighbours differ from the all-pairs oracle: {d}",
                       sorted(got.elements())[:30], sorted(exp.elements())[:30])
     if passed != passed_before:
-        ctx.violation("nearest_neighbor_tcrdist:tcrdist_kwargs-mutated", "caller's tcrdist_kwargs dict was modified", passed, passed_before)
-    # what pyrepseq handed to the dependency
+        ctx.count("tcrdist_kwargs_dict_modified")          # purity of option dictionaries is C20's property: observation only here
+    # what pyrepseq handed to the dependency: an observation (how the dependency is consulted is an implementation choice;
+    # the verdict is the comparison of the returned TCRdist values with the all-pairs oracle above)
     if cand:
         ctx.count("stub_calls_checked")
-        want_calls = len(chains)
-        if len(pwseqdist.CALLS) != want_calls:
-            ctx.violation("nearest_neighbor_tcrdist:dependency-calls", "unexpected number of calls into pwseqdist",
-                          len(pwseqdist.CALLS), want_calls)
-        for call in pwseqdist.CALLS:
-            if call["n_pairs"] != sum(cand.values()):
-                ctx.violation("nearest_neighbor_tcrdist:dependency-pairs", "pwseqdist was not given exactly the edit-distance candidates",
-                              call["n_pairs"], sum(cand.values()))
-            for kk in ("ntrim", "ctrim", "dist_weight", "gap_penalty", "fixed_gappos"):
-                if call["kwargs"].get(kk) != kw[kk]:
-                    ctx.violation("nearest_neighbor_tcrdist:dependency-kwargs", f"pwseqdist received {kk}={call['kwargs'].get(kk)}", call["kwargs"], kw)
+        ctx.distinct("dependency_call_patterns", [len(pwseqdist.CALLS), [c["n_pairs"] == sum(cand.values()) for c in pwseqdist.CALLS]])
 
 
 def k_vtables(ctx):
